@@ -190,9 +190,16 @@ def main(run: Run):
     results = [ex(jobs[0])]
     with concurrent.futures.ThreadPoolExecutor(max_workers=3 if thorough else 2) as pool:
         results += list(pool.map(ex, jobs[1:]))
+    # validation in small batches: the framework re-runs TLC once per rejected trace, so once a few
+    # violations are on record (the run exits 1 anyway) the remaining batches are not validated
+    vb = 120 if thorough else 45
     for (name, i, chunk), traces in zip(jobs, results):
-        run.validate("NegotiateTrace", "NegotiateTrace.cfg", traces, chunk,
-                     known_cfg="NegotiateKF.cfg", group=name)
+        for k in range(0, len(chunk), vb):
+            if len(run.violations) >= 3:
+                run.extra["validation_cut_short_after_violations"] = True
+                break
+            run.validate("NegotiateTrace", "NegotiateTrace.cfg", traces[k:k + vb], chunk[k:k + vb],
+                         known_cfg="NegotiateKF.cfg", group=name)
     run.extra["behaviours"] = total
 
 
